@@ -77,3 +77,31 @@ func VerifC28transfer() {
 	v.Assert(w.pool().Cmp(prePool) == 0, "no-coins-moved")
 	w.checkPool("pool-invariant-after-transfer")
 }
+
+// VerifC28restake: a stake request for an ALREADY staked application (edit-stake) with an arbitrary
+// amount and 1..3 chains against the limit of 2: whenever it is accepted the chains are within the
+// limit, the stake does not decrease, and after StakeApplication the stored record is staked with
+// exactly the requested stake and chains.
+func VerifC28restake() {
+	w := awNew()
+	cur := types.Application{Address: w.addrs[0], PublicKey: w.pks[0], Chains: []string{"0001"}, Status: sdk.Staked,
+		StakedTokens: sdk.NewIntFromBigInt(v.BigIn("1", awMaxTokens)), MaxRelays: sdk.NewInt(100), Jailed: v.Choice(2) == 1}
+	w.install(cur)
+	w.fund(w.addrs[0])
+	nchains := 1 + v.Choice(3)
+	chains := []string{"0001", "0021", "0040"}[:nchains]
+	na := types.Application{Address: w.addrs[0], PublicKey: w.pks[0], Chains: chains, StakedTokens: sdk.ZeroInt()}
+	amount := v.BigIn("0", awMaxTokens)
+	if w.k.ValidateApplicationStaking(w.ctx, na, sdk.NewIntFromBigInt(amount)) != nil {
+		return
+	}
+	v.Reach("restake-admitted")
+	v.Assert(nchains <= 2, "restake-chains-within-the-limit")
+	v.Assert(amount.Cmp(cur.StakedTokens.BigInt()) >= 0, "restake-never-lowers-the-stake")
+	if w.k.StakeApplication(w.ctx, na, sdk.NewIntFromBigInt(amount)) != nil {
+		return
+	}
+	got, found := w.k.GetApplication(w.ctx, w.addrs[0])
+	v.Assert(found && got.IsStaked() && got.StakedTokens.BigInt().Cmp(amount) == 0 && len(got.Chains) == nchains, "restake-stored-as-requested")
+	w.checkPool("pool-invariant-after-restake")
+}
